@@ -131,6 +131,9 @@ def replay(beh, tier="quick", seed=0, targets=None, check_rows=True):
                 elif not close(obs, want):
                     res["failures"].append({"kind": "value", "flags": list(flags), "pool": i,
                                             "op": ops[i], "batch": bname, "B": len(ridx),
+                                            "nan": bool(np.isnan(obs).any()),
+                                            "ok_where_finite": bool(close(
+                                                np.where(np.isnan(obs), want, obs), want)),
                                             "detail": f"observed {obs.tolist()} expected {want.tolist()}"[:600]})
             for l in cc.layers:
                 res["tags"].add(type(l).__name__ + (":folded" if getattr(l, "num_folds", 1) > 1 else ""))
